@@ -34,8 +34,8 @@ func init() {
 	fw.Register(&fw.Prop{
 		ID:    "C07",
 		Level: "exploration",
-		Rule: "cases = rounds, under the Go race detector, of 8-24 connections alive at once in one process (roles and permessage-deflate agreements mixed), each exchanging provenance-tagged messages with its own raw peer while a chaos behaviour is applied to it: reading again after end-of-message, abandoning a message half read and closing, protocol error mid-message, local Close / CloseNow / context expiry in the middle of a compressed message, peer Close frame between the fragments of a compressed message, BFINAL-terminated messages, close while a compressed write is blocked, wsjson reads/writes; each closed connection is followed at once by a successor that reuses the pools, first receives hostile 'dictionary probe' messages (DEFLATE streams whose back-references reach before their own start) and then exchanges tagged data. " +
-			"Oracles: (1) provenance - every 16 byte granule of every payload is (connection id, message id, offset), so whatever a read returns is checked granule by granule against that connection's own stream and a foreign granule names the connection it leaked from; (2) pool monitor on the verif get/put/in-use hooks: an object put twice, put while one of its methods is executing on the putting goroutine's stack, or put while another goroutine is registered inside Read/Write/writeFrame with it; (3) race detector reports. " +
+		Rule: "cases = rounds, under the Go race detector, of 8-24 connections alive at once in one process (roles and permessage-deflate agreements mixed), each exchanging provenance-tagged messages with its own raw peer while a chaos behaviour is applied to it: reading again after end-of-message, abandoning a message half read and closing, protocol error mid-message, local Close / CloseNow / context expiry in the middle of a compressed message, peer Close frame between the fragments of a compressed message, BFINAL-terminated messages, close while a compressed write is blocked, close (CloseNow / Close / context expiry) under a reader blocked in a transport read that lingers after the close, wsjson reads/writes; each closed connection is followed at once by a successor that reuses the pools, first receives hostile 'dictionary probe' messages (DEFLATE streams whose back-references reach before their own start) and then exchanges tagged data. " +
+			"Oracles: (1) provenance - every 16 byte granule of every payload is (connection id, message id, offset), so whatever a read returns is checked granule by granule against that connection's own stream and a foreign granule names the connection it leaked from; (2) pool monitor on the verif get/put/in-use hooks: an object put twice, put while one of its methods is executing on the putting goroutine's stack, put while another goroutine is registered inside Read/Write/writeFrame with it, or a connection's bufio.Reader put while a Read of the transport it wraps is still executing; (3) race detector reports. " +
 			"distinct key = (behaviour, role, agreement, outcome class)",
 		Gen:         c07Gen,
 		Race:        func(string) bool { return true },
